@@ -18,11 +18,23 @@ FlatAgrees == \A o \in Owners, d \in Data : \A t \in d.types : InFlatIsMembershi
 OthersKept == [][ \/ Flat(db') = Flat(db)
                   \/ \E p \in 1..Len(Flat(db')) : Flat(db) = Without(Flat(db'), p)
                   \/ \E p \in 1..Len(Flat(db))  : Flat(db') = Without(Flat(db), p)
-                  \/ last'.op = "appendlist" ]_vars
+                  \/ last'.op \in {"appendlist", "load"} ]_vars
 AppendAddsOne == [][ last'.op = "append" /\ last'.res = "ok" =>
                        /\ Len(Flat(db')) = Len(Flat(db)) + 1
                        /\ ~InFlat(db, last'.t, last'.o, NormId(last'.t, CHOOSE d \in Data : d.id = last'.d))
                        /\ InFlat(db', last'.t, last'.o, NormId(last'.t, CHOOSE d \in Data : d.id = last'.d)) ]_vars
+(* ---- databases that do not come from the library's own operations: decoded from a well-formed stream, ---- *)
+(* ---- which may hold the same entry twice in a list or in two lists (firmware-written variables do)     ---- *)
+CONSTANT Presets      \* function: name -> database
+DoLoad(p) == /\ last.op = "init" /\ db' = Presets[p] /\ UNCHANGED sl /\ last' = Rec("load", "-", "-", p, "ok")
+NextL == Next \/ \E p \in DOMAIN Presets : DoLoad(p)
+(* with loaded databases well-formedness splits: the list equations hold always, a list without a repeated     *)
+(* entry never gets one                                                                                        *)
+EqAll == /\ \A i \in DOMAIN db : ListEq(db[i]) /\ Len(db[i].entries) > 0
+         /\ (sl.type # "none" => ListWF(sl))
+NoDupAll(d) == \A i \in DOMAIN d : NoDupList(d[i])
+NoNewDup == [][ last'.op # "load" /\ NoDupAll(db) => NoDupAll(db') ]_vars
+
 RemoveDropsOne == [][ last'.op = "remove" /\ last'.res = "ok" =>
                        /\ Len(Flat(db')) = Len(Flat(db)) - 1 /\ InFlat(db, last'.t, last'.o, last'.d) ]_vars
 =============================================================================
